@@ -12,7 +12,8 @@ def main(chk: core.Check, replay):
     run_expr_corpus(chk, "C11", "saveload", exprcorpus.QUICK_LEVELS if quick else exprcorpus.THOROUGH_LEVELS,
                     cap=500 if quick else 6000, batch=60, styles=("tmin",))
     # structural models (components, units, descriptions): atoms and numerics of the reloaded model
-    r = run_tlc_struct(chk, ["C08_GeneratedAreWellFormed", "C01_RhsRefinesDen"], 1 if quick else 2, 41 if quick else 307)
+    r = run_tlc_struct(chk, ["C08_GeneratedAreWellFormed", "C01_RhsRefinesDen"], 1 if quick else 2, 41 if quick else 307,
+                       extra_layouts='{"mixed", "headed"}')
     recs = r.records
     r.records = []
     chk.add_tlc(r)
@@ -21,6 +22,7 @@ def main(chk: core.Check, replay):
     stats, bad = saveload.replay(recs, chk.nproc)
     chk.replayed += stats["models"]
     chk.extra["structural_saveload"] = {**stats, "mismatch_records": len(bad),
+                                        "mixed_layout_models": sum(1 for r in recs if r["blocks"][0]["comp"] == "A" and any(not b["comp"] for b in r["blocks"])),
                                         "annotated_models": sum(1 for r in recs if any(e.get("unit") for b in r["blocks"] for e in b["entries"]))}
     for b in bad:
         sig = f"C11:{b['tag']}:{b.get('fn', b.get('name', ''))}:model={model_sig(b.get('text', ''))}"
